@@ -453,6 +453,19 @@ def lookupStack (env : Env) : List Frame → Text → List Event → Looked × L
       | (.val v fs', tr) => (.val v (f :: fs'), tr)
       | (r, tr) => (r, tr)
 
+/-- `md.has_key(key)` / `key in md`: the walk of `md.getitem(key, 0)` without handing out (or calling) what it finds; an
+InstanceDict that answers has filled its cache, a frame that raises something else than KeyError / NameError ends it -/
+def hasKey (env : Env) (key : Text) (st : St) : Res Bool × St :=
+  match lookupStack env st.stack key st.trace with
+  | (.missing, tr) => (.ok false, { st with trace := tr })
+  | (.raise e, tr) => (.raise e, { st with trace := tr })
+  | (.val _ stack', tr) => (.ok true, { st with stack := stack', trace := tr })
+
+/-- `md._push(f)` and `md._pop(k)` (1 ≤ k ≤ what is there) on the model's stack, whose TOP is the HEAD (`TemplateDict._data`
+of the source has the top LAST): what `renderBlk` does inline for dtml-with / let / in (`f :: st.stack`, `st.stack.drop k`) -/
+def push (f : Frame) (stack : List Frame) : List Frame := f :: stack
+def popN (k : Nat) (stack : List Frame) : List Frame := stack.drop k
+
 /-! ### joining pieces (render_blocks / join_unicode) -/
 
 def latin1Decode (b : List Nat) : Text := b.map Char.ofNat
